@@ -28,7 +28,7 @@ OUTSIDE = ["URDF parsing, whitelist GENERATION (LinkInfo, regexes over frame nam
            "mesh loading", "more than 3 frames", "rounding"]
 BOUNDS = {"quick": "N<=3 frames (sphere/box/cylinder), 2 epochs of fully symbolic translations (9 reals per epoch) at signed-permutation rotations, query collider symbolic; self-collision: N=3 spheres with symbolic centres, all 64 whitelist configurations (self always whitelisted), narrow phase free",
           "thorough": "more rotation assignments and collider type assignments"}
-WALL_BUDGET = {"quick": 360, "thorough": 900}
+WALL_BUDGET = {"quick": 300, "thorough": 600}
 EXPECTED_EXCEPTIONS = ()
 ASSUMPTIONS = ["narrow-phase collision implies AABB overlap (C04)", "every frame whitelists itself (as the generated whitelists do)"]
 
